@@ -17,6 +17,8 @@ cObsFewQ == {{}, {"occupation"}, {"energy", "state"}, AllTags}
 cDtsQ3 == {100, 101, cInf}
 cPExpsQ3 == {5, 10, 13}
 cEExpsQ4 == {0 - 1, 2, 3, 7}
+cSrcs == {"config", "device"}
+cSrcsC == {"config"}
 cPOne == {5}
 cEOne == {3}
 cDtInf == {cInf}
